@@ -123,7 +123,11 @@ def _p5(run, M, proxes):
     for c in proxes:
         init = M.method(c, "__init__", inherit=False)
         if init is not None:
-            outs = [o for o in VN(M, init, real=REAL).run(init.body, State({p: T.sym(p) for p in init.params if p != "self"})) if o.status != "raise"]
+            from ..linopdesc import havoc_loop
+            try:
+                outs = [o for o in VN(M, init, real=REAL, loop_hook=havoc_loop).run(init.body, State({p: T.sym(p) for p in init.params if p != "self"})) if o.status != "raise"]
+            except Unrecognised:
+                outs = []
             for o in outs:
                 for p in init.params:
                     k = "self." + p
